@@ -88,12 +88,12 @@ Definition is_rfun (v : vm) (f : value) : Prop :=
     decode i1 = {| f_op := READ; f_k0 := 0; f_k1 := 0; f_k2 := 0; f_a0 := 0; f_a1 := 0; f_a2 := 0 |} /\
     decode i2 = {| f_op := RET; f_k0 := AddrStck; f_k1 := 0; f_k2 := 0; f_a0 := 0; f_a1 := 0; f_a2 := 0 |}.
 
-(* a user function of one parameter whose body is a pure expression: its entry point holds the code the
+(* a user function of a parameters whose body is a pure expression: its entry point holds the code the
    compiler emits for the body (from some compile state s0, with flags that do not let the value stay in
    the temp register), followed by RET of the body's operand; the data the code refers to is loaded *)
-Definition is_ufun (v : vm) (body : node) (f : value) : Prop :=
+Definition is_ufun (a : Z) (v : vm) (body : node) (f : value) : Prop :=
   exists morph fid fr s0 s1 wb flb,
-    f = VFun morph fid /\ fn_params morph = 1 /\ fn_locals morph = 1 /\
+    f = VFun morph fid /\ fn_params morph = a /\ fn_locals morph = a /\
     assoc_get (v_frames v) fid = Some fr /\
     wfcs s0 /\ ncs s0 = fn_node morph /\ comp body 0 flb s0 = COk (wb, s1) /\
     OpDepth flb = 0 /\ Discard flb = false /\ AcceptTemp flb = false /\
@@ -104,7 +104,7 @@ Definition bcode (v : vm) : Prop :=
   (forall nm b mo fid, bop_of_name nm = Some b -> ft_val Bf nm = VFun mo fid -> is_bfun v b (ft_val Bf nm)) /\
   (forall mo fid, ft_val Bf "read" = VFun mo fid -> is_rfun v (ft_val Bf "read")) /\
   (forall nm body mo fid, bop_of_name nm = None -> ft_body Bf nm = Some body -> ft_val Bf nm = VFun mo fid ->
-     is_ufun v body (ft_val Bf nm)).
+     is_ufun (ft_arity Bf nm) v body (ft_val Bf nm)).
 
 (* running the code of a statement *)
 Definition RunsS (M : meaning) (d : bool) (s s2 sd : cstate) (P : list Z) (K A : Z) : Prop :=
@@ -1975,7 +1975,7 @@ Qed.
 Lemma ssem_ucall n W nm e W' res :
   bop_of_name nm = None ->
   ssem n W (NCall (NName nm) [e]) = Some (W', res) ->
-  exists body mo fid, ft_body Bf nm = Some body /\ lpure1 body = true /\
+  exists body mo fid, ft_body Bf nm = Some body /\ ft_arity Bf nm = 1 /\ lpure1 body = true /\
     gval (w_glob W) nm = VFun mo fid /\ ft_val Bf nm = VFun mo fid /\
     match den (w_glob W) e with
     | Ok x => W' = wbump W /\ res = lden [x] (w_glob W) body /\
@@ -1985,11 +1985,12 @@ Lemma ssem_ucall n W nm e W' res :
 Proof.
   intros Hb. destruct n as [|n]; [discriminate|]. cbn [StmtSem.ssem]. rewrite Hb.
   destruct (ft_body Bf nm) as [body|]; [|discriminate].
+  destruct (Z.eqb_spec (ft_arity Bf nm) 1) as [Ear|]; [|discriminate]. cbn [andb].
   destruct (lpure1 body) eqn:Hlp; [|discriminate]. cbn [andb].
   destruct (Nat.leb (height e) n && Nat.leb (height body) n); cbn [andb]; [|discriminate].
   destruct (fun_eqb (gval (w_glob W) nm) (ft_val Bf nm)) eqn:Ef; [|discriminate].
   apply fun_eqb_eq in Ef. destruct Ef as [Eg [mo [fid Ebf]]].
-  intros H. exists body, mo, fid. conj; [reflexivity|exact Hlp|congruence|exact Ebf|].
+  intros H. exists body, mo, fid. conj; [reflexivity|exact Ear|exact Hlp|congruence|exact Ebf|].
   destruct (den (w_glob W) e) as [x|err]; [|injection H as <- <-; auto].
   destruct (lden [x] (w_glob W) body) as [y|err].
   - destruct (is_fun y) eqn:Ey; [discriminate H|]. injection H as <- <-. auto.
@@ -2229,7 +2230,7 @@ Proof.
   - left. reflexivity.
   - intros _. split; discriminate.
   - intros n rr v mid m r W' res Hbc Hc Hdat Hm Hsp Hip HM.
-    apply (ssem_ucall _ _ _ _ _ _ Hb) in HM. destruct HM as (body & mo & fid & Hbody & Hlp1 & Hg & Hbf & HM).
+    apply (ssem_ucall _ _ _ _ _ _ Hb) in HM. destruct HM as (body & mo & fid & Hbody & Har & Hlp1 & Hg & Hbf & HM).
     change (w_glob (wof v)) with (v_globals v) in *.
     pose proof (code_at_nth v (ncs s) (code ++ push_code K we) instr [] Hc) as Hi_call.
     apply code_at_app in Hc. destruct Hc as [Hc _].
@@ -2257,7 +2258,7 @@ Proof.
     { split; [|exact Hm1']. rewrite Hi1. destruct L4 as (_ & N & _). rewrite <- N4, N. exact Hi_call. }
     destruct (proj2 (proj2 Hbc) nm body mo fid Hb Hbody Hbf)
       as (morph & fid' & fr & s0 & sb & wb & flb & Ef & Hpar & Hloc & Hfr & Hwf0 & Hn0 & Hcomp & Hod & Hdis & Hacc & Hcode & Hdatb).
-    rewrite Hbf in Ef. injection Ef as <- <-.
+    rewrite Har in Hpar, Hloc. rewrite Hbf in Ef. injection Ef as <- <-.
     assert (Hle1 : m_sp m1 <= zlen (m_stack m1)) by (destruct Hm1 as (_&_&_&_&_&B); lia).
     destruct (call_enter rr v mid m1 r1 instr (nds s4) nm mo fid fr 1 (m_sp m) x 0 0 Hat Hdi Hname Hg Hpar Hloc Hfr
                 ltac:(lia) (proj1 Hsp) Hsp1 Hle1 (fun _ => Hx1)) as [mc [Hs2 [Hin [Hspc Hlec]]]].
@@ -2452,6 +2453,267 @@ Proof.
       rewrite EW2. reflexivity.
 Qed.
 
+(* ================= calls with any number of arguments: nm(e1, .., ek) of a user function ================= *)
+Definition args_go (fl : flags) := fix go (l : list node) : CM unit :=
+  match l with
+  | [] => cret tt
+  | a :: l' =>
+      i <- comp a 0 fl ;;
+      (if negb (Src0 i =? AddrStck) && negb (Src0 i =? AddrInv) then emit (Z.lor i (New PUSH)) else cret tt) ;;; go l'
+  end.
+
+Lemma comp_call_unfold nm args sel fl :
+  comp (NCall (NName nm) args) sel fl =
+  (args_go (withOpDepth 0 (pass fl)) args ;;;
+   (addr <- here ;;
+    put_dbg addr nm (Z.of_nat (List.length args)) ;;;
+    i <- comp_ref (NName nm) 0 ;;
+    w <- enc 1 AddrImm (Z.of_nat (List.length args)) ;;
+    emit (Z.lor (Z.lor i (New CALL)) w) ;;;
+    enc sel AddrStck 0)).
+Proof. reflexivity. Qed.
+
+(* one argument: its code, and a PUSH unless the value is already on the stack *)
+Lemma arg_push_spec e s we s1 u2 s2 :
+  pure e = true -> wfcs s -> comp e 0 (tfl false) s = COk (we, s1) ->
+  (if negb (Src0 we =? AddrStck) && negb (Src0 we =? AddrInv) then emit (Z.lor we (New PUSH)) else cret tt) s1 = COk (u2, s2) ->
+  exists code, lay s s2 code /\ wfcs s2 /\
+     RunsS (fun W => Some (W, den (w_glob W) e)) false s s2 s2 code AddrStck 0.
+Proof.
+  intros Hp Hwf He Hpush.
+  apply (comp_pure_spec e Hp 0 (tfl false) s we s1 ltac:(lia) Hwf) in He. apply SpecD_lay in He.
+  destruct He as [code [K [A (L1 & W1 & Ee & Ok1 & _ & NT & X)]]].
+  assert (NK : K <> AddrTmp) by (apply NT; reflexivity).
+  assert (NI : K <> AddrInv) by (unfold okind, AddrStck, AddrTmp, AddrDS, AddrGbl, AddrInv in *; lia).
+  destruct (enc_src0 K A we (okind_range K Ok1) Ee) as [S0 _]. rewrite S0 in Hpush.
+  assert (Hp2 : lay s1 s2 (push_code K we) /\ rds s2 = rds s1 /\ nds s2 = nds s1 /\ wfcs s2).
+  { unfold push_code. rewrite (proj2 (Z.eqb_neq K AddrInv) NI) in Hpush. cbn [negb] in Hpush. rewrite andb_true_r in Hpush.
+    destruct (K =? AddrStck); cbn [negb] in Hpush.
+    - apply cret_ok in Hpush. destruct Hpush as [_ ->]. conj; [apply lay_refl|reflexivity|reflexivity|exact W1].
+    - apply emit_ok in Hpush. subst s2. rewrite Z.lor_comm. conj; try reflexivity.
+      + change [Z.lor (New PUSH) we] with ([] ++ [Z.lor (New PUSH) we]). apply lay_emit. apply lay_refl.
+      + apply wfcs_emitted. exact W1. }
+  destruct Hp2 as [Lp [Rd2 [Nd2 W2]]].
+  exists (code ++ push_code K we). conj; [apply (lay_trans s s1 s2); assumption|exact W2|].
+  apply (RunsS_data _ false s s2 s1 s2 _ AddrStck 0 []); [|rewrite Rd2; reflexivity].
+  apply (value_on_stack _ s s1 s2 s1 code K A we).
+  - apply (RunsK_S (fun G => den G e) _ false s s1 s1 code K A _ X). intros G G' r0 E0. injection E0 as <- <-. auto.
+  - exact NK.
+  - exact NI.
+  - apply okind_skind. exact Ok1.
+  - exact Ee.
+  - destruct L1 as (_ & N & _). exact N.
+  - destruct Lp as (_ & N & _). exact N.
+Qed.
+
+(* the arguments, left to right, each left on the stack *)
+Definition RunsArgs (l : list node) (s s2 sd : cstate) (P : list Z) : Prop :=
+  forall rr v mid m r, bcode v -> code_at v (ncs s) P -> data_at v sd -> cur_mid v r = Good mid ->
+    0 <= m_sp m <= zlen (m_stack m) -> r_ip r = ncs s ->
+    match seq_res (den (v_globals v)) l with
+    | Ok xs => exists k m' r', steps rr k (St v mid m) r = SNext (St v mid m') r' /\ msame (m_sp m) m m' /\
+                 m_sp m' = m_sp m + zlen xs /\
+                 (forall i x, znth xs i = Some x -> znth (m_stack m') (m_sp m + i) = Some x) /\
+                 r_ctx r' = r_ctx r /\ r_ip r' = ncs s2
+    | Fail err => exists k me ip vals, steps rr k (St v mid m) r = SErr (St v mid me) (r_ctx r) ip err vals
+    end.
+
+Lemma args_spec : forall l, forallb pure l = true ->
+  forall s u s', wfcs s -> args_go (tfl false) l s = COk (u, s') ->
+  exists code, lay s s' code /\ wfcs s' /\ RunsArgs l s s' s' code.
+Proof.
+  induction l as [|a l IH]; intros Hp s u s' Hwf H.
+  - cbn [args_go] in H. apply cret_ok in H. destruct H as [_ ->]. exists []. conj; [apply lay_refl|exact Hwf|].
+    intros rr v mid m r _ _ _ _ Hsp Hip. cbn [seq_res]. exists 0%nat, m, r. cbn [steps]. conj; try reflexivity.
+    + apply msame_refl. exact Hsp.
+    + unfold zlen. cbn [List.length]. lia.
+    + intros i x Hi. unfold znth in Hi. destruct (i <? 0); [discriminate Hi|]. destruct (Z.to_nat i); discriminate Hi.
+    + exact Hip.
+  - cbn [forallb] in Hp. apply andb_prop in Hp. destruct Hp as [Hpa Hpl].
+    cbn [args_go] in H. apply cbind_ok in H. destruct H as [we [s1 [He H]]].
+    apply cbind_ok in H. destruct H as [u2 [s2 [Hpush Hrest]]].
+    destruct (arg_push_spec a s we s1 u2 s2 Hpa Hwf He Hpush) as [code1 (L1 & W2 & X1)].
+    destruct (IH Hpl s2 u s' W2 Hrest) as [code2 (L2 & W' & X2)].
+    exists (code1 ++ code2). conj; [apply (lay_trans s s2 s'); assumption|exact W'|].
+    intros rr v mid m r Hbc Hc Hdat Hm Hsp Hip.
+    apply code_at_app in Hc. destruct Hc as [Hc1 Hc2].
+    assert (Hd2 : data_at v s2) by (destruct L2 as (_ & _ & [d2 D2]); apply (data_at_ext v s2 s' d2 Hdat D2)).
+    pose proof (X1 rr v mid m r (wof v) (den (v_globals v) a) Hbc Hc1 Hd2 Hm Hsp Hip eq_refl) as E1.
+    cbn [seq_res]. destruct (den (v_globals v) a) as [x|err].
+    + destruct E1 as [k1 [m1 [r1 [Hs1 [Hm1 [Hc1' [Hi1 Ho]]]]]]]. rewrite SG_same in Hs1. rewrite set_world_same in Ho.
+      destruct Ho as [[_ [Hsp1 Hx1]]|[[E0 _]|[[E0 _]|[E0 _]]]]; try discriminate E0.
+      assert (Hm1' : cur_mid v r1 = Good mid) by (rewrite (cur_mid_ctx v r r1 Hc1'); exact Hm).
+      assert (Hsp1' : 0 <= m_sp m1 <= zlen (m_stack m1)) by (destruct Hm1 as (_&_&_&_&_&B); lia).
+      assert (Hc2' : code_at v (ncs s2) code2) by (destruct L1 as (_ & N & _); rewrite N; exact Hc2).
+      pose proof (X2 rr v mid m1 r1 Hbc Hc2' Hdat Hm1' Hsp1' Hi1) as E2.
+      destruct (seq_res (den (v_globals v)) l) as [xs|err].
+      * destruct E2 as [k2 [m2 [r2 [Hs2 [Hm2 [Hsp2 [Hx2 [Hc2'' Hi2]]]]]]]].
+        exists (k1 + k2)%nat, m2, r2. rewrite steps_app, Hs1, Hs2. conj.
+        -- reflexivity.
+        -- apply (msame_trans (m_sp m) (m_sp m1) m m1 m2); [lia|exact Hm1|exact Hm2].
+        -- unfold zlen in *. cbn [List.length]. lia.
+        -- intros i y Hi. unfold znth in Hi. destruct (Z.ltb_spec i 0); [discriminate Hi|].
+           destruct (Z.to_nat i) as [|j] eqn:Ej.
+           ++ cbn [nth_error] in Hi. injection Hi as <-. assert (i = 0) by lia. subst i. rewrite Z.add_0_r.
+              destruct Hm2 as (_ & _ & _ & _ & T & _). rewrite <- Hx1.
+              apply (znth_firstn _ _ (Z.to_nat (m_sp m1))); [exact T|lia|lia].
+           ++ cbn [nth_error] in Hi. replace (m_sp m + i) with (m_sp m1 + Z.of_nat j) by lia.
+              apply Hx2. unfold znth. destruct (Z.ltb_spec (Z.of_nat j) 0); [lia|]. rewrite Nat2Z.id. exact Hi.
+        -- congruence.
+        -- exact Hi2.
+      * destruct E2 as [k2 [me [ip [vals Hs2]]]]. exists (k1 + k2)%nat, me, ip, vals. rewrite steps_app, Hs1, Hs2.
+        rewrite Hc1'. reflexivity.
+    + destruct E1 as [k1 [me [ip [vals Hs1]]]]. rewrite SG_same in Hs1. exists k1, me, ip, vals. exact Hs1.
+Qed.
+
+(* what ssem says about a call that is not of the one-argument or read() shape *)
+Lemma ssem_callN n W nm args W' res :
+  (List.length args <> 1)%nat -> (args = [] -> String.eqb nm "read" = false) ->
+  ssem n W (NCall (NName nm) args) = Some (W', res) ->
+  exists n', n = S n' /\ bop_of_name nm = None /\ ucall_sem Bf n' W nm args = Some (W', res).
+Proof.
+  intros Hlen Hread H. destruct n as [|n]; [discriminate H|]. exists n. split; [reflexivity|].
+  destruct args as [|e1 [|e2 rest]]; [| exfalso; apply Hlen; reflexivity |]; cbn [StmtSem.ssem] in H.
+  - rewrite (Hread eq_refl) in H. destruct (bop_of_name nm); [discriminate H|]. auto.
+  - destruct (bop_of_name nm); [discriminate H|]. destruct (String.eqb nm "read"); [discriminate H|]. auto.
+Qed.
+
+Lemma callN_specS nm args fl d sel s s' w :
+  forallb pure args = true -> (List.length args <> 1)%nat -> (args = [] -> String.eqb nm "read" = false) ->
+  0 <= sel <= 2 -> wfcs s -> withOpDepth 0 (pass fl) = tfl false ->
+  comp (NCall (NName nm) args) sel fl s = COk (w, s') ->
+  SpecS (NCall (NName nm) args) d sel s s' w.
+Proof.
+  intros Hp Hlen Hread Hsel Hwf Hfl H. rewrite comp_call_unfold in H. rewrite Hfl in H.
+  apply cbind_ok in H. destruct H as [u1 [s2 [Hargs H]]].
+  destruct (args_spec args Hp s u1 s2 Hwf Hargs) as [codeA (LA & W2 & XA)].
+  apply cbind_ok in H. destruct H as [addr [s3 [Hh H]]]. apply here_ok in Hh. destruct Hh as [-> ->].
+  apply cbind_ok in H. destruct H as [u3 [s4 [Hdbg H]]]. apply put_dbg_ok in Hdbg. destruct Hdbg as (R4 & N4 & D4 & ND4).
+  apply cbind_ok in H. destruct H as [wg [s5 [Href H]]].
+  cbn [comp_ref] in Href. apply cbind_ok in Href. destruct Href as [ix [s5' [Hds Href]]].
+  apply add_ds_ok in Hds. destruct Hds as [-> ->]. apply enc_ok in Href. destruct Href as [-> Ewg].
+  apply cbind_ok in H. destruct H as [wi [s6 [Hi H]]]. apply enc_ok in Hi. destruct Hi as [-> Ewi].
+  apply cbind_ok in H. destruct H as [u4 [s7 [Hem Hres]]].
+  apply emit_ok in Hem. subst s7. apply enc_ok in Hres. destruct Hres as [-> Ew].
+  set (ar := Z.of_nat (List.length args)) in *.
+  set (instr := Z.lor (Z.lor wg (New CALL)) wi) in *.
+  assert (Hdi : decode instr = {| f_op := CALL; f_k0 := AddrGbl; f_k1 := AddrImm; f_k2 := 0; f_a0 := nds s4; f_a1 := ar; f_a2 := 0 |}).
+  { unfold instr. rewrite lor3_reorder.
+    apply (decode_op01 CALL AddrGbl (nds s4) AddrImm ar wg wi call_range gbl_range imm_range Ewg Ewi). }
+  set (s5 := with_data s4 (VStr nm)) in *.
+  assert (L4 : lay s s4 codeA).
+  { destruct LA as (R & N & [dd D]). unfold lay. rewrite R4, N4, D4. conj; [exact R|exact N|exists dd; exact D]. }
+  assert (W4 : wfcs s4).
+  { destruct W2 as [A1 B1]. unfold wfcs. rewrite R4, N4, D4, ND4. split; assumption. }
+  assert (W5 : wfcs s5).
+  { destruct W4 as [A1 B1]. unfold wfcs, s5, with_data, zlen in *; cbn [rcs ncs rds nds List.length]. split; lia. }
+  exists (codeA ++ [instr]), AddrStck, 0. conj.
+  - apply lay_emit. destruct L4 as (R & N & [dd D]). unfold lay, s5, with_data; cbn [rcs ncs rds]. conj; try assumption.
+    exists (VStr nm :: dd). rewrite D. reflexivity.
+  - apply wfcs_emitted. exact W5.
+  - exact Ew.
+  - left. reflexivity.
+  - intros _. split; discriminate.
+  - intros n rr v mid m r W' res Hbc Hc Hdat Hm Hsp Hip HM.
+    apply (ssem_callN _ _ _ _ _ _ Hlen Hread) in HM. destruct HM as (n' & -> & Hb & HM).
+    unfold ucall_sem in HM. change (w_glob (wof v)) with (v_globals v) in HM.
+    destruct (ft_body Bf nm) as [body|] eqn:Hbody; [|discriminate HM].
+    destruct (Z.eqb_spec (ft_arity Bf nm) (zlen args)) as [Har|]; [|discriminate HM]. cbn [andb] in HM.
+    destruct (lpure (repeat VNil (List.length args)) body) eqn:Hlp0; [|discriminate HM]. cbn [andb] in HM.
+    destruct (Nat.leb (heights args) n' && Nat.leb (height body) n'); cbn [andb] in HM; [|discriminate HM].
+    destruct (fun_eqb (gval (v_globals v) nm) (ft_val Bf nm)) eqn:Ef; [|discriminate HM].
+    apply fun_eqb_eq in Ef. destruct Ef as [Hg [mo [fid Hbf]]]. rewrite Hbf in Hg.
+    pose proof (code_at_nth v (ncs s) codeA instr [] Hc) as Hi_call.
+    apply code_at_app in Hc. destruct Hc as [Hc _].
+    assert (Hd2 : data_at v s2).
+    { intros i y Hy. apply Hdat. cbn [emitted rds s5 with_data rev]. apply znth_app_l. rewrite D4. exact Hy. }
+    assert (Hname : znth (v_ds v) (nds s4) = Some (VStr nm)).
+    { apply Hdat. cbn [emitted rds s5 with_data]. rewrite (proj2 W4). apply znth_rev_cons. }
+    pose proof (XA rr v mid m r Hbc Hc Hd2 Hm Hsp Hip) as E.
+    destruct (seq_res (den (v_globals v)) args) as [xs|err] eqn:Exs.
+    2:{ injection HM as <- <-. destruct E as [k1 [me [ip [vals Hs1]]]]. exists k1, me, ip, vals. rewrite SG_same. exact Hs1. }
+    destruct E as [k1 [m1 [r1 [Hs1 [Hm1 [Hsp1 [Hx1 [Hc1 Hi1]]]]]]]].
+    assert (Hlen' : zlen xs = zlen args) by (unfold zlen; rewrite (seq_res_length _ _ _ Exs); reflexivity).
+    assert (Hm1' : cur_mid v r1 = Good mid) by (rewrite (cur_mid_ctx v r r1 Hc1); exact Hm).
+    assert (Hat : at_ip v r1 mid instr).
+    { split; [|exact Hm1']. rewrite Hi1. destruct L4 as (_ & N & _). rewrite <- N4, N. exact Hi_call. }
+    destruct (proj2 (proj2 Hbc) nm body mo fid Hb Hbody Hbf)
+      as (morph & fid' & fr & s0 & sb & wb & flb & Ef & Hpar & Hloc & Hfr & Hwf0 & Hn0 & Hcomp & Hod & Hdis & Hacc & Hcode & Hdatb).
+    rewrite Hbf in Ef. injection Ef as <- <-.
+    assert (Har' : ft_arity Bf nm = ar) by (rewrite Har; reflexivity).
+    rewrite Har' in Hpar, Hloc.
+    assert (Hle1 : m_sp m1 <= zlen (m_stack m1)) by (destruct Hm1 as (_&_&_&_&_&B); lia).
+    assert (Hax : ar = zlen xs) by (unfold ar; fold (zlen args); lia).
+    destruct (call_enterN rr v mid m1 r1 instr (nds s4) nm mo fid fr ar (m_sp m) xs 0 0 Hat Hdi Hname Hg Hpar Hloc Hfr
+                Hax (proj1 Hsp) ltac:(lia) Hle1 Hx1) as [mc [Hs2 [Hin [Hspc Hlec]]]].
+    set (vb := vbump v) in *.
+    set (r2 := with_ip (with_ip r1 (fn_node mo - 1)) (r_ip (with_ip r1 (fn_node mo - 1)) + 1)).
+    assert (Hlp : lpure xs body = true).
+    { rewrite (lpure_len xs (repeat VNil (List.length args)) body); [exact Hlp0|]. unfold zlen in *. rewrite repeat_length. lia. }
+    pose proof (LExprCorrect.comp_lpure_spec xs body Hlp 0 flb s0 wb sb ltac:(lia) Hwf0 Hcomp) as SB.
+    destruct SB as (codeb & Kb & Ab & Rb & Nb & _ & Wb & Eb & Okb & _ & NTb & XB).
+    assert (NKb : Kb <> AddrTmp) by (apply NTb; assumption).
+    specialize (Hcode codeb Rb).
+    pose proof (code_at_nth v (ncs s0) codeb (Z.lor (New RET) wb) [] Hcode) as Hi_ret.
+    apply code_at_app in Hcode. destruct Hcode as [Hcodeb _].
+    assert (Hm2 : cur_mid vb r2 = Good mid).
+    { change (cur_mid vb r2) with (cur_mid v r2). rewrite (cur_mid_ctx v r1 r2); [exact Hm1'|reflexivity]. }
+    assert (Hip2 : r_ip r2 = ncs s0) by (unfold r2; cbn [with_ip r_ip]; lia).
+    assert (Hlfr : LExprCorrect.lfr xs mc).
+    { right. destruct Hin as (F & _ & _ & _ & _ & X0 & _).
+      destruct (fp_at_app2 mc (m_fp m1) (m_sp m) (m_sp m + ar) F) as [F2 _].
+      exists (m_sp m). split; [exact F2|]. split; [lia|]. split; [lia|]. exact X0. }
+    pose proof (XB rr vb mid mc r2 Hcodeb Hdatb Hm2 ltac:(unfold zlen in *; lia) Hlfr Hip2) as EB.
+    change (v_globals vb) with (v_globals v) in EB.
+    destruct (lden xs (v_globals v) body) as [y|err].
+    + destruct (is_fun y) eqn:Hnf; [discriminate HM|]. injection HM as <- <-.
+      destruct EB as (m4 & r4 & Hs3 & Hm4 & Hc4 & Hi4 & _ & Ho4).
+      destruct (LExprCorrect.fetch_opnd vb mid (m_sp mc) mc Kb Ab y m4 r4 Ho4 NKb Hm4) as (m4' & Hf4 & Hm4' & Hsp4').
+      assert (Hin4 : in_frameN ar (m_sp m) (r_ip r1) fr (v_next v) xs m1 m4').
+      { apply (in_frameN_msame ar (m_sp m) (r_ip r1) fr (v_next v) xs m1 mc m4' (m_sp mc) Hin Hm4'); [lia|lia|exact Hax]. }
+      set (iret := Z.lor (New RET) wb) in *.
+      assert (Hdr : decode iret = {| f_op := RET; f_k0 := Kb; f_k1 := 0; f_k2 := 0; f_a0 := Ab; f_a1 := 0; f_a2 := 0 |})
+        by (apply (decode_op0 RET Kb Ab wb ret_range (LExprCorrect.okind_range Kb Okb) Eb)).
+      assert (Hat4 : at_ip vb r4 mid iret).
+      { split; [rewrite Hi4, Nb; exact Hi_ret|]. change (cur_mid vb r4) with (cur_mid v r4).
+        rewrite (cur_mid_ctx v r1 r4); [exact Hm1'|]. rewrite Hc4. reflexivity. }
+      assert (Hle4 : m_sp m4' <= zlen (m_stack m4')) by (destruct Hm4' as (_&_&_&_&_&B); lia).
+      destruct (call_leaveN rr vb mid m1 m4 m4' r4 iret ar (m_sp m) (r_ip r1) fr (v_next v) xs y Kb Ab 0 0 0 0
+                  Hat4 Hdr Hf4 Hin4 ltac:(unfold zlen in *; lia) (proj1 Hsp) ltac:(lia) Hle4 (not_fun_is_fun y Hnf))
+        as [m5 [Hs4 (F5 & C5 & S5 & P5 & T5 & Hsp5 & Hle5 & Htop5)]].
+      exists (k1 + (1 + (List.length codeb + 1)))%nat, m5, (with_ip (with_ip r4 (r_ip r1)) (r_ip r1 + 1)).
+      rewrite steps_app, Hs1, steps_app, steps_one, Hs2. cbv beta iota. fold r2.
+      rewrite steps_app, Hs3, steps_one, Hs4. cbv beta iota. conj.
+      * reflexivity.
+      * destruct Hm1 as (F1 & C1 & S1 & P1 & T1 & B1). unfold msame.
+        split; [congruence|]. split; [congruence|]. split; [congruence|]. split; [exact (incl_tran P5 P1)|].
+        split; [rewrite T5; exact T1|lia].
+      * cbn [with_ip r_ctx]. rewrite Hc4. unfold r2. cbn [with_ip r_ctx]. exact Hc1.
+      * cbn [with_ip r_ip emitted ncs s5 with_data]. destruct L4 as (_ & N & _). rewrite Hi1. lia.
+      * destruct d; [unfold stack_effect; cbn; lia|].
+        left. conj; [reflexivity|lia|exact Htop5].
+    + injection HM as <- <-. destruct EB as (me & ipe & vals & Hs3).
+      exists (k1 + (1 + List.length codeb))%nat, me, ipe, vals.
+      rewrite steps_app, Hs1, steps_app, steps_one, Hs2. cbv beta iota. fold r2. rewrite Hs3.
+      replace (r_ctx r2) with (r_ctx r) by (unfold r2; cbn [with_ip r_ctx]; congruence). reflexivity.
+Qed.
+
+(* every call with pure arguments, whatever the callee *)
+Lemma call_specS nm args fl d sel s s' w :
+  forallb pure args = true -> 0 <= sel <= 2 -> wfcs s -> withOpDepth 0 (pass fl) = tfl false ->
+  comp (NCall (NName nm) args) sel fl s = COk (w, s') ->
+  SpecS (NCall (NName nm) args) d sel s s' w.
+Proof.
+  intros Hp Hsel Hwf Hfl H. destruct args as [|e [|e2 rest]].
+  - destruct (String.eqb nm "read") eqn:Er.
+    + apply String.eqb_eq in Er. subst nm. exact (rcall_specS fl d sel s s' w Hsel Hwf H).
+    + apply (callN_specS nm [] fl d sel s s' w Hp); try assumption; [discriminate|intros _; exact Er].
+  - cbn [forallb] in Hp. rewrite andb_true_r in Hp. destruct (bop_of_name nm) as [b|] eqn:Eb.
+    + exact (bcall_specS nm b e fl d sel s s' w Eb Hp Hsel Hwf Hfl H).
+    + exact (ucall_specS nm e fl d sel s s' w Eb Hp Hsel Hwf Hfl H).
+  - apply (callN_specS nm (e :: e2 :: rest) fl d sel s s' w Hp); try assumption; [discriminate|intros E0; discriminate E0].
+Qed.
+
 (* ================= g = nm(e), g = read() ================= *)
 Lemma ssem_assign_call n W g e W' res :
   pure e = false ->
@@ -2546,14 +2808,12 @@ Section WInd.
   Hypothesis HPure : forall t, pure t = true -> Q t.
   Hypothesis HAssign : forall g e, pure e = true -> Q (NAssign (NName g) e).
   Hypothesis HAssignCall : forall g e, pure e = false -> is_bcall e = true -> Q e -> Q (NAssign (NName g) e).
-  Hypothesis HRead : Q (NCall (NName "read") []).
   Hypothesis HBlock : forall l, l <> [] -> forallb wstmt l = true -> Forall Q l -> Q (NBlock l).
   Hypothesis HIf : forall c b, pure c = true -> wstmt b = true -> Q b -> Q (NIf c b).
   Hypothesis HIfElse : forall c a b, pure c = true -> wstmt a = true -> wstmt b = true -> Q a -> Q b -> Q (NIfElse c a b).
   Hypothesis HWhile : forall c b, pure c = true -> wstmt b = true -> Q b -> Q (NWhile c b).
   Hypothesis HWrite : forall e, pure e = true -> Q (NWrite e).
-  Hypothesis HCall : forall nm b e, bop_of_name nm = Some b -> pure e = true -> Q (NCall (NName nm) [e]).
-  Hypothesis HUCall : forall nm e, bop_of_name nm = None -> pure e = true -> Q (NCall (NName nm) [e]).
+  Hypothesis HCall : forall nm args, forallb pure args = true -> Q (NCall (NName nm) args).
 
   Fixpoint wstmt_induction (t : node) : wstmt t = true -> Q t.
   Proof.
@@ -2571,9 +2831,7 @@ Section WInd.
       clear Hw. induction l as [|x r IHr]; [constructor|].
       cbn [forallb] in Hall. apply andb_prop in Hall. destruct Hall as [Hx Hr].
       constructor; [apply wstmt_induction; exact Hx|apply IHr; exact Hr].
-    - cbn [is_bcall] in Hw. destruct t; try discriminate Hw. destruct args as [|e [|e2 args]]; try discriminate Hw.
-      + apply String.eqb_eq in Hw. subst n. exact HRead.
-      + destruct (bop_of_name n) as [b|] eqn:Eb; [exact (HCall n b e Eb Hw)|exact (HUCall n e Eb Hw)].
+    - cbn [is_bcall] in Hw. destruct t; try discriminate Hw. exact (HCall n args Hw).
     - apply HWrite. exact Hw.
   Defined.
 End WInd.
@@ -2587,12 +2845,7 @@ Proof.
     apply (assign_call_specS g e d 0 s s' w Hp); try assumption; try lia.
     + destruct e; try discriminate Hbc; reflexivity.
     + intros s0 w0 s1 Hwf0 H0. destruct e; try discriminate Hbc. destruct e; try discriminate Hbc.
-      destruct args as [|a [|a2 args]]; try discriminate Hbc; cbn [is_bcall] in Hbc.
-      * apply String.eqb_eq in Hbc. subst n. apply (rcall_specS _ false 0 s0 s1 w0 ltac:(lia) Hwf0 H0).
-      * destruct (bop_of_name n) as [b|] eqn:Eb.
-        -- apply (bcall_specS n b a _ false 0 s0 s1 w0 Eb Hbc ltac:(lia) Hwf0 eq_refl H0).
-        -- apply (ucall_specS n a _ false 0 s0 s1 w0 Eb Hbc ltac:(lia) Hwf0 eq_refl H0).
-  - intros d sel s w s' -> Hwf H. apply (rcall_specS _ d 0 s s' w ltac:(lia) Hwf H).
+      cbn [is_bcall] in Hbc. apply (call_specS n args _ false 0 s0 s1 w0 Hbc ltac:(lia) Hwf0 eq_refl H0).
   - intros l Hne _ HF d sel s w s' Hsel Hwf H. rewrite comp_block_unfold in H.
     apply (block_specS d sel Hsel l Hne HF 0 s w s' Hwf H).
   - intros c b Hc _ Hb d sel s w s' -> Hwf H. destruct d.
@@ -2604,7 +2857,6 @@ Proof.
     + apply (while_discard_specS c b 0 s s' w ltac:(lia) Hc Hb Hwf H).
     + apply (while_value_specS c b s s' w Hc Hb Hwf H).
   - intros e Hp d sel s w s' -> Hwf H. apply (write_specS e d 0 s s' w Hp ltac:(lia) Hwf H).
-  - intros nm b e Hb Hp d sel s w s' -> Hwf H. apply (bcall_specS nm b e _ d 0 s s' w Hb Hp ltac:(lia) Hwf eq_refl H).
-  - intros nm e Hb Hp d sel s w s' -> Hwf H. apply (ucall_specS nm e _ d 0 s s' w Hb Hp ltac:(lia) Hwf eq_refl H).
+  - intros nm args Hp d sel s w s' -> Hwf H. apply (call_specS nm args _ d 0 s s' w Hp ltac:(lia) Hwf eq_refl H).
 Qed.
 End WithB.
